@@ -447,6 +447,32 @@ fn sleep_reset() {
 }
 tq_harness!(c05_sleep_reset_reregisters, 6, sleep_reset());
 
+/// registered sleep reset to a CONCRETE other deadline (queue insertion positions stay concrete,
+/// only `now` is symbolic): after the reset nothing stays registered at the old deadline, the
+/// next poll registers exactly once at the new deadline and that deadline is the next wake-up
+fn sleep_reset_concrete(d: u32, d2: u32) {
+    let q = install_driver();
+    let now = any_in(0, 1);
+    SimTime::set_now(st(now));
+    let mut s = Box::pin(Sleep::new(st(d)));
+    let id = s.id_for_verif();
+    let r = poll_sleep(&mut s, 0);
+    assert!(r == Poll::Pending && find_entry(&q, id) == (1, st(d)), "C05 pending sleep is registered exactly once at its deadline");
+    s.as_mut().reset(st(d2));
+    assert!(s.deadline() == st(d2), "C05 reset changes the deadline");
+    let (n, at) = find_entry(&q, id);
+    assert!(n == 0 || (n == 1 && at == st(d2)), "C05 after reset the timer is no longer registered at its old deadline");
+    let r2 = poll_sleep(&mut s, 0);
+    assert!(r2 == Poll::Pending, "C05 reset sleep is pending until the new deadline");
+    let (n, at) = find_entry(&q, id);
+    assert!(n == 1 && at == st(d2), "C05 after reset the timer is registered exactly once, at the new deadline (never lost, never left at the old one)");
+    assert!(q.next() == Some(st(d2)), "C05 after reset the next wake-up is the new deadline");
+    kani::cover!(true, "REACH end of harness");
+    std::mem::forget((q, s));
+}
+tq_harness!(c05_sleep_reset_later, 5, sleep_reset_concrete(3, 6));
+tq_harness!(c05_sleep_reset_earlier, 5, sleep_reset_concrete(6, 3));
+
 // ------------------------------------------------------------------ Timeout::poll
 struct Flag(bool);
 impl Future for Flag {
